@@ -64,18 +64,36 @@ theorem split_join_by_code (truth : Term → Bool) :
         Term.app "getitem" [Term.sym "x", Term.int i]], Term.app "in" [Term.sym "x", Term.sym "by", Term.app "if" []]]
       Out.ret [] (Term.app "tuple" [pick 0, pick 1]) := rfl
 
-/-- `_get_join_indices`: key tuple → position in the (reduced) right frame, written front to back; for every left row, in
-    order, the position of its key tuple or -1; `found` = the left positions with a match. -/
+/-- `_get_join_indices` (after fix c09ead9): the key columns of both sides, in `by` order; for a pair of datetime key columns
+    of DIFFERENT units the lookup uses casts of BOTH to the promoted (finer) unit — and only when casting back gives the
+    original values on both sides (nothing overflowed), so equal keys are equal instants; the frames' own columns are not
+    written.  Then: key tuple → position in the (reduced) right frame, written front to back; for every left row, in order,
+    the position of its key tuple or -1; `found` = the left positions with a match. -/
 theorem get_join_indices_code (truth : Term → Bool) :
     DataFrame_get_join_indices truth =
-      let keysOf (frame byv : String) := Term.app "zip" [Term.app "*" [Term.app "ListComp"
-        [Term.app "getitem" [Term.sym frame, Term.sym "x"], Term.app "in" [Term.sym "x", Term.sym byv, Term.app "if" []]]]]
-      let otherIds := Term.app "list()" [keysOf "other" "by2"]
+      let keysOf (frame byv : String) := Term.app "ListComp"
+        [Term.app "getitem" [Term.sym frame, Term.sym "x"], Term.app "in" [Term.sym "x", Term.sym byv, Term.app "if" []]]
+      let dt (k : String) := Term.app ".dtype" [Term.sym k]
+      let back (n k : String) := Term.app ".all" [Term.app ".equal" [Term.app ".astype" [Term.sym n, dt k], Term.sym k]]
+      let unify := Term.app "for" [Term.app "tuple" [Term.sym "i", Term.app "tuple" [Term.sym "key1", Term.sym "key2"]],
+        Term.app "enumerate" [Term.app "zip" [keysOf "self" "by1", keysOf "other" "by2"]],
+        Term.app "block" [Term.app "if" [Term.app "And" [Term.app ".is_datetime" [Term.sym "key1"], Term.app ".is_datetime" [Term.sym "key2"],
+            Term.app "NotEq" [dt "key1", dt "key2"]],
+          Term.app "block"
+            [Term.app "assign" [Term.sym "dtype", Term.app "np.promote_types" [dt "key1", dt "key2"]],
+             Term.app "assign" [Term.app "tuple" [Term.sym "new1", Term.sym "new2"],
+               Term.app "tuple" [Term.app ".astype" [Term.sym "key1", Term.sym "dtype"], Term.app ".astype" [Term.sym "key2", Term.sym "dtype"]]],
+             Term.app "if" [Term.app "And" [back "new1" "key1", back "new2" "key2"],
+               Term.app "block" [Term.app "assign" [Term.app "tuple" [Term.app "getitem" [Term.sym "keys1", Term.sym "i"], Term.app "getitem" [Term.sym "keys2", Term.sym "i"]],
+                 Term.app "tuple" [Term.sym "new1", Term.sym "new2"]]],
+               Term.app "block" []]],
+          Term.app "block" []]]]
+      let otherIds := Term.app "list()" [Term.app "zip" [Term.app "*" [keysOf "other" "by2"]]]
       let byId := Term.app "DictComp" [Term.app "pair" [Term.app "getitem" [otherIds, Term.sym "i"], Term.sym "i"],
         Term.app "in" [Term.sym "i", Term.app "range" [Term.app ".nrow" [Term.sym "other"]], Term.app "if" []]]
       let srcv := Term.app "np.fromiter" [Term.app "map" [Term.app "lambda" [Term.app "params" [Term.sym "x"],
-        Term.app ".get" [byId, Term.sym "x", Term.int (-1)]], keysOf "self" "by1"], Term.sym "int",
+        Term.app ".get" [byId, Term.sym "x", Term.int (-1)]], Term.app "zip" [Term.app "*" [keysOf "self" "by1"]]], Term.sym "int",
         Term.app "=count" [Term.app ".nrow" [Term.sym "self"]]]
-      Out.ret [] (Term.app "tuple" [Term.app "np.where" [Term.app "Gt" [srcv, Term.int (-1)]], srcv]) := rfl
+      Out.ret [unify] (Term.app "tuple" [Term.app "np.where" [Term.app "Gt" [srcv, Term.int (-1)]], srcv]) := rfl
 
 end DI.Tie.C05
